@@ -1,18 +1,18 @@
 #!/bin/bash
-# seedimport.sh <ID> <A|B>: copy a sub-agent's seeded change from /tmp/wt/<ID>.out into /verif/seeded/<ID>-<X>,
-# rebasing the patch onto /repo's current HEAD (3-way) so that it applies there.
+# seedimport.sh <ID> <X>: copy a sub-agent's seeded change from /tmp/wt/<ID>.out into /verif/seeded/<ID>-<X>,
+# rebasing the patch onto /repo's current HEAD (3-way, in a scratch worktree, never in /repo itself).
 set -e
-ID=$1; X=$2; SRC=/tmp/wt/$ID.out; D=/verif/seeded/$ID-$X
+ID=$1; X=$2; SRC=/tmp/wt/$ID.out; D=/verif/seeded/$ID-$X; WT=/tmp/seedimport.wt
 mkdir -p $D
 cp $SRC/$X.meta.json $D/agent_meta.json
 for f in $SRC/$X.demo*; do cp "$f" "$D/$(basename "$f" | sed "s/^$X\.//").txt"; done
-[ -z "$(git -C /repo status --porcelain)" ] || { echo "/repo dirty"; exit 2; }
-if git -C /repo apply --3way $SRC/$X.patch.diff 2>/dev/null; then
-  git -C /repo diff HEAD > $D/patch.diff
-  git -C /repo reset -q --hard HEAD
+git -C /repo worktree remove --force $WT 2>/dev/null || true
+git -C /repo worktree add -q --detach $WT HEAD
+if git -C $WT apply --3way $SRC/$X.patch.diff 2>/dev/null && [ -z "$(git -C $WT diff --name-only --diff-filter=U)" ]; then
+  git -C $WT diff HEAD > $D/patch.diff
   echo "imported $ID-$X"
 else
-  git -C /repo reset -q --hard HEAD
   cp $SRC/$X.patch.diff $D/patch.orig.diff
   echo "WARNING: $ID-$X does not apply to current HEAD (kept as patch.orig.diff)"
 fi
+git -C /repo worktree remove --force $WT
